@@ -114,10 +114,21 @@ func (c *ConfigEntry) shouldSkipOperation(args *structs.ConfigEntryRequest) (boo
 	}
 
 	switch args.Op {
-	case structs.ConfigEntryUpsert, structs.ConfigEntryUpsertCAS:
+	case structs.ConfigEntryUpsert:
 		return c.shouldSkipUpsertOperation(currentEntry, args.Entry)
-	case structs.ConfigEntryDelete, structs.ConfigEntryDeleteCAS:
+	case structs.ConfigEntryUpsertCAS:
+		// A check-and-set is only a no-op when its index is the current one;
+		// with any other index the state store has to refuse it.
+		if currentEntry == nil || args.Entry.GetRaftIndex().ModifyIndex != currentEntry.GetRaftIndex().ModifyIndex {
+			return false, nil
+		}
+		return c.shouldSkipUpsertOperation(currentEntry, args.Entry)
+	case structs.ConfigEntryDelete:
 		return (currentEntry == nil), nil
+	case structs.ConfigEntryDeleteCAS:
+		// Let the state store answer: deleting an absent entry with an
+		// expected index deletes nothing and reports false.
+		return false, nil
 	default:
 		return false, fmt.Errorf("invalid config entry operation type: %v", args.Op)
 	}
